@@ -11,6 +11,8 @@ type FromSpec struct {
 	nameAddr *NameAddr
 	addrSpec *AddrSpec
 	params   []KeyValue
+	// text is the value as received; it is written back literally as long as the value is not modified
+	text string
 }
 
 func ParseFromSpec(s string) (*FromSpec, error) {
@@ -53,6 +55,7 @@ func ParseFromSpec(s string) (*FromSpec, error) {
 			params = s[pos+1:]
 		}
 	}
+	r.text = s
 	if len(params) == 0 {
 		return r, nil
 	}
@@ -77,6 +80,9 @@ func (fs *FromSpec) GetAddrSpec() (*AddrSpec, error) {
 }
 
 func (fs *FromSpec) String() string {
+	if fs.text != "" {
+		return fs.text
+	}
 	buf := bytes.NewBuffer(make([]byte, 0))
 
 	if fs.nameAddr != nil {
@@ -104,6 +110,7 @@ func (fs *FromSpec) GetTag() (string, error) {
 }
 
 func (fs *FromSpec) SetTag(tag string) {
+	fs.text = ""
 	for i, param := range fs.params {
 		if param.Key == "tag" {
 			fs.params[i].Value = tag
